@@ -55,28 +55,43 @@ static int g_ftz;
 #define FTZ_OFF() (void) 0
 #endif
 
-/* runs "<CMD> <literal>\n"; returns the step record or NULL (violation already reported through key prefix) */
+/* How the literal reaches the parser is not part of what it denotes. Each literal is delivered in one of four ways, chosen by a hash of its
+ * text: "<CMD> <literal>" ended by LF, by CR LF, by a zero-length (flush) call, or - in ONE call together with a complete earlier message
+ * "D 777...7" that is longer than the unit itself - left pending and then executed by a flush (the bytes behind the literal are then whatever
+ * the earlier message left in the buffer, not a terminator the application wrote).
+ * Returns the step record of the literal's unit or NULL (violation already reported through key prefix). */
+static unsigned lit_hash(const char * lit, size_t n) { unsigned h = 2166136261u; while (n--) h = (h ^ (unsigned char) *lit++) * 16777619u; return h ^ (h >> 15); }
+static void feed(const void * p, size_t n) {
+#if VH_ASAN
+    vh_input(V, p, n);
+#else
+    SCPI_Input(V->ctx, (const char *) p, (int) n);
+#endif
+}
 static const vh_stepres_t * decode(int cmd, const char * lit, size_t n, const char * cls) {
-    char key[128];
+    char key[128]; unsigned mode = lit_hash(lit, n) % 8u; int want_inv = 1; size_t i;
+    static const char * const modename[8] = { "lf", "lf", "lf", "lf", "crlf", "flush", "behind-a-message-then-flush", "behind-a-message-then-flush" };
+    if (n > 400 && mode >= 6) mode = 0;
     vh_ctx_clear_capture(V);
-    vh_buf_reset(&msg); vh_buf_adds(&msg, cmdname[cmd]); vh_buf_addc(&msg, ' '); vh_buf_add(&msg, lit, n); vh_buf_addc(&msg, '\n');
+    vh_buf_reset(&msg);
+    if (mode >= 6) { vh_buf_adds(&msg, "D "); for (i = 0; i < n + 12; i++) vh_buf_addc(&msg, '7'); vh_buf_addc(&msg, '\n'); want_inv = 2; }
+    vh_buf_adds(&msg, cmdname[cmd]); vh_buf_addc(&msg, ' '); vh_buf_add(&msg, lit, n);
+    if (mode < 4) vh_buf_addc(&msg, '\n'); else if (mode == 4) vh_buf_adds(&msg, "\r\n");
     {
         FTZ_ON();
-#if VH_ASAN
-        vh_input(V, msg.p, msg.len);
-#else
-        SCPI_Input(V->ctx, msg.p, (int) msg.len);
-#endif
+        feed(msg.p, msg.len);
+        if (mode >= 5) feed(NULL, 0);
         FTZ_OFF();
     }
     vh_eval(1);
-    if (V->ninv != 1 || V->inv[0].nsteps_done != 1 || !V->inv[0].res[0].ok || V->nerrs) {
+    vh_count(mode < 4 ? "delivery.ended_by_lf" : mode == 4 ? "delivery.ended_by_crlf" : mode == 5 ? "delivery.ended_by_flush" : "delivery.pending_behind_a_complete_message_then_flush", 1);
+    if (V->ninv != want_inv || V->inv[want_inv - 1].nsteps_done != 1 || !V->inv[want_inv - 1].res[0].ok || V->nerrs) {
         snprintf(key, sizeof key, "C04:literal-not-accepted:%s:%s", rdname[cmd], cls);
-        vh_violation(key, "\"%s %s\": handler ran %d time(s), reader ok=%d, errors %d (first %d)", cmdname[cmd], vh_esc(lit, n), V->ninv, V->ninv ? V->inv[0].res[0].ok : 0, V->nerrs, V->nerrs ? V->errs[0] : 0);
+        vh_violation(key, "\"%s %s\" (delivery: %s): handler ran %d time(s) instead of %d, reader ok=%d, errors %d (first %d)", cmdname[cmd], vh_esc(lit, n), modename[mode], V->ninv, want_inv, V->ninv == want_inv ? V->inv[want_inv - 1].res[0].ok : 0, V->nerrs, V->nerrs ? V->errs[0] : 0);
         SCPI_ErrorClear(V->ctx);
         return NULL;
     }
-    return &V->inv[0].res[0];
+    return &V->inv[want_inv - 1].res[0];
 }
 
 /* ---- decimal literals ----------------------------------------------------------------------------------- */
